@@ -96,6 +96,12 @@ fn check_expr(ctx: &mut Ctx, text: &str, setup: &Setup, sig: &str) {
     let mut args = setup.args.clone();
     // raw UTF-8 output: the \\u spelling of non-BMP characters is C02's subject (known finding there)
     args.push("--utf8-strings".into());
+    // an option that must not change any value, in rotation
+    match crate::ctx::h64(&text) % 3 {
+        1 => args.push("--regular-expression-cache-size=1".into()),
+        2 => args.push("--regular-expression-cache-size=16".into()),
+        _ => {}
+    }
     args.push(format!("--select={text}=x"));
     let case = Case::owned(args, format!("{}\n", setup.input).into_bytes());
     let obs = ctx.run(&case);
